@@ -511,6 +511,7 @@ impl Inst {
 pub struct Profile {
     pub max_types: u64,
     pub max_locs: u64,
+    pub min_locs: u64,
     pub min_departures: u64,
     pub max_departures: u64,
     pub max_route_segs: u64,
@@ -533,6 +534,7 @@ impl Profile {
         Profile {
             max_types: 2,
             max_locs: 3,
+            min_locs: 2,
             min_departures: 2,
             max_departures: 6,
             max_route_segs: 2,
@@ -549,6 +551,7 @@ impl Profile {
         Profile {
             max_types: 3,
             max_locs: 4,
+            min_locs: 2,
             min_departures: 3,
             max_departures: 9,
             max_route_segs: 3,
@@ -567,8 +570,28 @@ impl Profile {
         Profile {
             max_types: 1,
             max_locs: 3,
+            min_locs: 2,
             min_departures: 6,
             max_departures: 12,
+            max_route_segs: 1,
+            maint_percent: 100,
+            max_maint: 2,
+            span_steps: 30,
+            max_demand_factor: 1,
+            maint_heavy: true,
+            non_transitive: false,
+            fleet_heavy: true,
+        }
+    }
+    /// like `fleet_heavy`, but three or four locations (one default depot each) and few
+    /// maintained vehicles: long rotation cycles whose greedy order the cycle 3-opt improves
+    pub fn cycle_heavy() -> Profile {
+        Profile {
+            max_types: 1,
+            max_locs: 5,
+            min_locs: 4,
+            min_departures: 8,
+            max_departures: 14,
             max_route_segs: 1,
             maint_percent: 100,
             max_maint: 2,
@@ -583,6 +606,7 @@ impl Profile {
         Profile {
             max_types: 2,
             max_locs: 3,
+            min_locs: 2,
             min_departures: 3,
             max_departures: 8,
             max_route_segs: 2,
@@ -602,7 +626,7 @@ pub const BASE: u64 = 86400;
 
 pub fn gen_instance(rng: &mut Rng, p: &Profile) -> Inst {
     let ntypes = rng.range(1, p.max_types) as usize;
-    let nlocs = rng.range(2, p.max_locs) as usize;
+    let nlocs = rng.range(p.min_locs, p.max_locs) as usize;
     let mut vtypes = vec![];
     for _ in 0..ntypes {
         let capacity = *rng.pick(&[10u64, 20, 50, 100]);
